@@ -26,7 +26,7 @@ def fake_kernel(h, k, may_raise):
     def mk(w):
         def f(p):
             if raises:
-                raise ValueError('A value in x_new is above the interpolation range.')
+                raise symx.simulated(ValueError('A value in x_new is above the interpolation range.'))
             n = len(numpy.asarray(p, dtype=object).ravel())
             return isofix.column(h, K[w][:n])
         return f
